@@ -98,7 +98,9 @@ func (i importer) Import(path string) string {
 
 	pkgName := goast.DeterminePackageName(path)
 	name := i.ns.NewName(pkgName)
-	for i.isLocal(name) {
+	// "init" is never taken in a namespace (a file may declare any number of
+	// init functions) but a package cannot be imported under that name.
+	for i.isLocal(name) || name == "init" {
 		name = i.ns.NewName(pkgName)
 	}
 	astImport := &ast.ImportSpec{
